@@ -619,7 +619,9 @@ class NDNApp:
     def _on_nack(self, name: enc.FormalName, nack_reason: int):
         # Interests whose name ends with an implicit digest are filed under the name without it
         implicit_sha256 = b''
-        if name and enc.Component.get_type(name[-1]) == enc.Component.TYPE_IMPLICIT_SHA256:
+        # (a digest component without a value is no digest: such a name is not the name without it)
+        if (name and enc.Component.get_type(name[-1]) == enc.Component.TYPE_IMPLICIT_SHA256
+                and len(enc.Component.get_value(name[-1])) > 0):
             implicit_sha256 = enc.Component.get_value(name[-1])
             name = name[:-1]
         try:
